@@ -89,7 +89,12 @@ LEVEL_TEXT = ('BufferAsyncCalls is modelled step for step as an executable macro
               'no_loss_progress + settles_idle (from any reachable live state with no slow producer in the way, FnOk; Advance>=timeout; '
               'FnOk delivers everything handed over and leaves the buffer idle); foreign_at_least_once.  Tied to /repo by running the '
               'real class under a virtual-time loop on the enumerated / random event lists and comparing every observation with the model '
-              'inside Coq (vm_compute); the monitor Case_C03.ok re-decides the property on the implementation trace.')
+              'inside Coq (vm_compute); the monitor Case_C03.ok = ok_csets && ok_offered && ok_once && ok_walk re-decides the property on '
+              'the implementation trace.  tracker_agrees_on_offers (the monitors\' input tracker agrees with the model after every '
+              'event list); monitor_complete_partial (call-set, only-submitted and exactly-once parts accept the model trace of '
+              'every event list; the walk part — failed set offered again, settled => delivered — is not proved complete); '
+              'callset_monitor_sound and walk_monitor_sound (model-free: acceptance implies the readable statements on the '
+              'observed trace and script).')
 LEVEL_NOTE = ('trusted: Coq kernel + vm_compute; no axioms (Print Assumptions: closed under the global context); asyncio primitives are '
               'modelled and validated only by the correspondence runs; harness/buffer_drv.py, harness/vloop.py; Case_Buffer.v, Case_C03.v.  '
               '"Eventually" is the progress theorem over event-list continuations (the environment must let the function succeed and '
